@@ -23,10 +23,12 @@ ITEMS = {
     "link": '<text:a xlink:href="http://x/" xlink:type="simple">fa</text:a>',
     "bm": '<text:bookmark text:name="bm0"/>',
     "spanws": '<text:span text:style-name="T1">a<text:s/> b</text:span>',
+    "sp": " ",  # a text run made of one blank only (between two inline elements)
 }
 
 SMALL = ["ab", "a b", "s2", "tab", "span", "span2", "link", "bm"]
 FULL = ["ab", "a b", "ba", "s2", "tab", "lb", "span", "span2", "link", "bm", "spanws"]
+FULL_SP = FULL + ["sp"]
 
 
 def para_xml(items, tag="text:p"):
@@ -37,7 +39,7 @@ def family(maxlen=3, alphabet=FULL):
     """List of item tuples whose paragraph is in white-space normal form and
     where no two adjacent items are plain strings (they would merge into one node)."""
     out = []
-    plain = {"ab", "a b", "ba"}
+    plain = {"ab", "a b", "ba", "sp"}
     for n in range(1, maxlen + 1):
         for tup in itertools.product(alphabet, repeat=n):
             if any(a in plain and b in plain for a, b in zip(tup, tup[1:])):
